@@ -22,6 +22,7 @@ ENGINES = [
     ("euler", "numba", False),
     ("runge-kutta", "numba", False),
     ("adams-bashforth", "numpy", False),
+    ("adams-bashforth", "numba", False),
     ("implicit", "numpy", False),
     ("euler", "numpy", True),
     ("euler", "numba", True),
